@@ -127,6 +127,12 @@ def run_config(case, monitor_reads=False, calls=None):
         obs["info"] = await C.do_call(world, "read_device_info", inv.read_device_info)
         if obs["info"]["outcome"] != "result":
             return
+        if case["seed"] % 3 == 1:
+            # applications re-read the device info (reconnect, periodic refresh): same inverter, same outcome
+            again = await C.do_call(world, "read_device_info", inv.read_device_info)
+            if again["outcome"] != "result":
+                obs["info"] = again
+                return
         for j in range(3):
             if fam == "ET":
                 dev.set_reg(35184, case["battery_modes"][j])
